@@ -37,11 +37,15 @@ theorem regMap_injective_gemmx (cfg : Cfg) (n : Nat) : (regMapGemmx cfg n).addrs
 theorem regMap_injective_phs (cfg : Cfg) (sw : Nat) : (regMapPhs cfg sw).addrs.Nodup := regMapPhs_nodup cfg sw
 
 /-- snax_xdma, including the multicast gap and the two registers skipped before the barrier.  The clause
-`cfg ≠ []` is the constructor's own `assert len(streamers)` (`StreamerConfiguration.__init__`). -/
-theorem regMap_injective_xdma (cfg : Cfg) (hne : cfg ≠ []) : (regMapXdma cfg).addrs.Nodup := by
-  cases cfg with
-  | nil => exact absurd rfl hne
-  | cons s cfg => exact regMapXdma_nodup_of_len _ (xdmaSetupFields_length s cfg)
+`4 ≤ number of setup fields` says that the four pointer registers in front of the multicast gap exist; it
+holds for every configuration with a reader and a writer (`regMap_injective_xdma_two_streamers`), which is
+what every xDMA instance has. (Before fix F14 a single streamer already had four fields.) -/
+theorem regMap_injective_xdma (cfg : Cfg) (h4 : 4 ≤ (xdmaSetupFields cfg).length) :
+    (regMapXdma cfg).addrs.Nodup := regMapXdma_nodup_of_len cfg h4
+
+theorem regMap_injective_xdma_two_streamers (cfg : Cfg) (h2 : 2 ≤ cfg.length) : (regMapXdma cfg).addrs.Nodup := by
+  match cfg, h2 with
+  | s1 :: s2 :: cfg, _ => exact regMapXdma_nodup_of_len _ (xdmaSetupFields_length s1 s2 cfg)
 
 /-- …and the clause is needed: with no streamer the launch register falls into the multicast gap. -/
 theorem regMap_injective_xdma_empty_fails : ¬ (regMapXdma []).addrs.Nodup := by decide
@@ -97,12 +101,12 @@ theorem accelerators_separated :
     (∀ cfg, Sep [declOf "snax_alu" (regMapAlu cfg) .poll3]) ∧
     (∀ cfg n, Sep [declOf "snax_gemmx" (regMapGemmx cfg n) .poll3]) ∧
     (∀ name cfg sw, Sep [declOf name (regMapPhs cfg sw) .poll3]) ∧
-    (∀ cfg, cfg ≠ [] → Sep [declOf "snax_xdma" (regMapXdma cfg) .poll3]) ∧
+    (∀ cfg, 2 ≤ cfg.length → Sep [declOf "snax_xdma" (regMapXdma cfg) .poll3]) ∧
     Sep [declOf "snax_hwpe_mult" regMapHwpe .poll1] :=
   ⟨fun cfg => sep_single _ _ _ (regMap_injective_alu cfg) (by simp),
    fun cfg n => sep_single _ _ _ (regMap_injective_gemmx cfg n) (by simp),
    fun name cfg sw => sep_single name _ _ (regMap_injective_phs cfg sw) (by simp),
-   fun cfg hne => sep_single _ _ _ (regMap_injective_xdma cfg hne) (by simp),
+   fun cfg h2 => sep_single _ _ _ (regMap_injective_xdma_two_streamers cfg h2) (by simp),
    sep_single _ _ _ regMap_injective_hwpe (fun _ => by decide)⟩
 
 /-- Injectivity is what `launch_observes` needs: two fields declared at one address observe each other. -/
